@@ -211,4 +211,8 @@ r('rf-first-combos-helper-by-position',
   ('src/taiko/difficulty/gradual.rs', "self.first_combos.combo_after(skipped)", "self.first_combos.combo_after(self.idx)"),
   diff='selftest/seed_diffs/C02-5.diff', props=['C15', 'C02', 'C03', 'C14', 'C01', 'C11'])
 
+# the shared NthAdvance plan of seed C15-3 with its slip repaired (first-object case keyed on idx == 0): the overshoot guard lives in a helper of another module
+r('rf-nth-advance-plan',
+  diff='selftest/seed_diffs/C15-3-corrected.diff', props=['C15', 'C02', 'C05', 'C03'])
+
 REFACTORS = R
